@@ -424,6 +424,31 @@ func driveC05(t *testing.T, out *vEmitter) {
 					if method == "S256" && verifier != "" && strings.Contains(sent, verifier) {
 						out.Violation("pkce-nonce/secret-sent-to-browser", "the PKCE verifier appears in clear in something sent to the browser with S256", map[string]interface{}{})
 					}
+					// ---- how each secret is wrapped in the authorization request (0 absent, 1 in clear, 2 hashed, 3 other),
+					// against the symbolic model's shape for this method ----
+					wrapCode := func(param, raw string, hashed string) int64 {
+						switch {
+						case param == "":
+							return 0
+						case param == raw || param == base64.RawURLEncoding.EncodeToString([]byte(raw)):
+							return 1
+						case param == hashed:
+							return 2
+						}
+						return 3
+					}
+					b64sha := func(x string) string {
+						h := sha256.Sum256([]byte(x))
+						return base64.RawURLEncoding.EncodeToString(h[:])
+					}
+					stateHead := this.State
+					if i := strings.Index(stateHead, ":"); i >= 0 {
+						stateHead = stateHead[:i]
+					}
+					msym := map[string]string{"": "none", "plain": "plain", "S256": "s256"}[method]
+					out.Case("symbolic-shape", true,
+						vL(vI(wrapCode(stateHead, rawState, b64sha(rawState))), vI(wrapCode(this.Nonce, rawNonce, b64sha(rawNonce))), vI(wrapCode(this.Challenge, verifier, b64sha(verifier)))),
+						vL("auth_request_shape", vY(msym), vBool(!skipNonce)))
 					// ---- authorization request parameters ----
 					if method != "" {
 						if this.Method != method || this.Challenge == "" {
